@@ -16,7 +16,7 @@ RULE = ("case = (shared configuration {key_prefix bytes/str, default_noreply, en
         "none/json/pickle/compressed, connect_timeout, timeout, no_delay, socket_keepalive, TLS}, server state in "
         "hit/numeric-hit/miss, one key-addressed call: required arguments positionally, optional ones (expire, noreply, "
         "flags, default, cas_default) by keyword, get's default also positionally; cas with matching / stale token; "
-        "incr on numeric / non-numeric / missing; multi-key calls with repeated keys; illegal keys; str values only some encodings can encode). The call is "
+        "incr on numeric / non-numeric / missing; multi-key calls with repeated keys and with the key collection given as tuple, dict view or a one-shot iterable (iterator, generator, map object); illegal keys; str values only some encodings can encode). The call is "
         "run on a fresh stack of each kind - Client (reference), PooledClient, HashClient([server]) with use_pooling "
         "off and on, RetryingClient(Client, attempts=1), and attempts=3 when the reference call succeeds - each over "
         "its own fake network and memcached model in the same state. Oracle (differential): identical parsed command "
@@ -247,6 +247,13 @@ CALLS = [
     {"op": "delete", "key": "k", "noreply": False},
     {"op": "delete_many", "keys": ["k", "j"], "noreply": False},
     {"op": "delete_many", "keys": []},
+    {"op": "get_many", "keys": ["k", "j", "zz"], "keys_as": "generator"},
+    {"op": "gets_many", "keys": ["k", "j"], "keys_as": "iter"},
+    {"op": "get_many", "keys": ["k", "j"], "keys_as": "map"},
+    {"op": "delete_many", "keys": ["k", "j"], "noreply": False, "keys_as": "generator"},
+    {"op": "delete_many", "keys": ["k", "zz"], "keys_as": "iter"},
+    {"op": "get_many", "keys": ["k", "j"], "keys_as": "dictview"},
+    {"op": "get_many", "keys": ["k", "j"], "keys_as": "tuple"},
     {"op": "delete_many", "keys": ["k", "k"], "noreply": False},
     {"op": "delete_many", "keys": ["j", "k", "j", b"k"]},
     {"op": "get_many", "keys": ["k", "k", "j", b"k"]},
@@ -326,8 +333,10 @@ def random_strategy(tier):
     # (repeated keys are legal: the plain Client sends the key once per occurrence)
     keys = st.one_of(st.lists(st.sampled_from(["k", "j", "zz", b"q", "key:5"]), max_size=4, unique_by=lambda k: k if isinstance(k, bytes) else k.encode()),
                      st.lists(st.sampled_from(["k", "j", "zz", b"k", "key:5"]), min_size=2, max_size=5))
-    many = st.fixed_dictionaries({"op": st.sampled_from(["get_many", "gets_many"]), "keys": keys})
-    delmany = mk(st.fixed_dictionaries({"op": st.just("delete_many"), "keys": keys}), {"noreply": noreply})
+    # (the key collection may be any iterable, a one-shot one included)
+    shape = st.sampled_from(["list", "list", "tuple", "iter", "generator", "map", "dictview"])
+    many = st.fixed_dictionaries({"op": st.sampled_from(["get_many", "gets_many"]), "keys": keys, "keys_as": shape})
+    delmany = mk(st.fixed_dictionaries({"op": st.just("delete_many"), "keys": keys, "keys_as": shape}), {"noreply": noreply})
     setmany = mk(st.fixed_dictionaries({"op": st.just("set_many"), "values": st.dictionaries(st.sampled_from(["k", "j", "zz"]), value, min_size=1, max_size=3)}),
                  {"expire": expire, "noreply": noreply, "flags": flags})
     delete = mk(st.fixed_dictionaries({"op": st.just("delete"), "key": key}), {"noreply": noreply})
